@@ -270,7 +270,7 @@ impl Server for OneShotServer {
         let n = self.attempts;
         self.attempts += 1;
         match self.outcomes.get(n).copied().unwrap_or(Outcome::Valid) {
-            Outcome::Silent => {}
+            Outcome::Silent | Outcome::Partial => {}
             Outcome::Malformed => cx.udp_send(from, self.malformed.clone()),
             Outcome::Valid => cx.udp_send(from, self.reply.clone()),
         }
